@@ -8,11 +8,14 @@
    when exactly the depth and loop errors are raised, that the state only ever grows along one
    chain (and is cloned, by construction of the loops, for siblings), that successful results
    never depend on the state, fuel irrelevance.
-   PARTIAL: "every cyclic chain is reported as a reference-loop error" -- the theorem says a
-   cyclic graph ends in a value or an error, and the loop/depth theorems say when those two
-   errors are raised; that no cyclic chain can end in a value is covered by the cyclic streams
-   of the check on every run and by the boundary evaluations below, not by a theorem. *)
-From RV Require Import Model.Interp Proofs.WfFacts Proofs.StateFacts Proofs.StateIndep Proofs.Mono Proofs.NoPanic Proofs.Termination.
+   Cycles are reported (C08_cycles_of_whole_value_references_are_reported): in any set of
+   parameters each holding a whole-value reference to another parameter of the set (cycles of
+   any length, several cycles, chains leading into a cycle) every parameter renders, from some
+   fuel on, to an error that is the reference-loop error or the depth-limit error -- never to a
+   value.  PARTIAL: the same for cycles that pass through embedded references, containers,
+   layers or nested paths is covered by the cyclic streams of the check on every run and by the
+   boundary evaluations below, not by a theorem. *)
+From RV Require Import Model.Interp Proofs.WfFacts Proofs.StateFacts Proofs.StateIndep Proofs.Mono Proofs.NoPanic Proofs.Termination Proofs.CycleFacts.
 
 (** The depth error is raised exactly at nesting depth 64 (documented limit), whatever the
     reference refers to ... *)
@@ -77,6 +80,39 @@ Theorem C08_interpolation_terminates :
   exists F r, r <> OutOfFuel /\ forall F', F <= F' -> interp F' root v st = r.
 Proof. intros root v st Hr Hv. exact (interp_total root Hr v st Hv). Qed.
 Eval cbv in "ASSUMPTIONS-OF C08_interpolation_terminates"%string. Print Assumptions C08_interpolation_terminates.
+
+(** Cycles are reported: a set [ks] of parameters each of which holds a whole-value reference to
+    a parameter of the set ([succ]) -- following the references never leaves the set -- never
+    renders to a value: from some fuel on every one of them renders to an error, and the error
+    is the reference-loop error or the depth-limit error. *)
+Theorem C08_cycles_of_whole_value_references_are_reported :
+  forall root, wf (VMap root) ->
+  forall ks succ,
+    (forall k, In k ks ->
+       In (succ k) ks /\ m_get (VStr k) root = Some (VStr (ref_text (succ k))) /\
+       split_on ":" k = [k] /\ token_parse (ref_text k) = Parsed (TRef [TLit k])) ->
+  forall k st, In k ks ->
+    exists F0 e, is_cycle_err e /\ forall F, F0 <= F -> interp F root (VStr (ref_text k)) st = Err e.
+Proof. intros root Hw ks succ Hc k st Hk. exact (cycle_is_reported root Hw ks succ Hc k st Hk). Qed.
+Eval cbv in "ASSUMPTIONS-OF C08_cycles_of_whole_value_references_are_reported"%string. Print Assumptions C08_cycles_of_whole_value_references_are_reported.
+
+(** non-vacuity: a -> b -> c -> a, and d -> a leading into it *)
+Example C08_cycle_hypotheses_hold :
+  let root := [ mk_entry (VStr "a") (VStr "${b}") false false; mk_entry (VStr "b") (VStr "${c}") false false;
+                mk_entry (VStr "c") (VStr "${a}") false false; mk_entry (VStr "d") (VStr "${a}") false false ] in
+  let succ := fun k : string => if String.eqb k "a" then "b" else if String.eqb k "b" then "c" else "a" in
+  wf (VMap root) /\
+  forall k, In k ["a"; "b"; "c"; "d"] ->
+    In (succ k) ["a"; "b"; "c"; "d"] /\ m_get (VStr k) root = Some (VStr (ref_text (succ k))) /\
+    split_on ":" k = [k] /\ token_parse (ref_text k) = Parsed (TRef [TLit k]).
+Proof.
+  cbn zeta. split.
+  - apply wf_map_iff. split; [|split].
+    + repeat (constructor; [cbn; intuition discriminate|]). constructor.
+    + repeat constructor.
+    + repeat constructor.
+  - intros k [<-|[<-|[<-|[<-|[]]]]]; (split; [cbn; tauto | split; [reflexivity | split; reflexivity]]).
+Qed.
 
 (** Boundary evaluations on the model (kernel computations, instances -- not the general claim):
     a chain of 63 whole-value references renders, a chain of 65 hits the depth limit; direct,
